@@ -467,6 +467,14 @@ def _div_call_sites(ctx, prog, crate):
                               if d[0] == "S" and d[3]["rv"]["k"] == "agg" and d[3]["rv"]["ak"] == "closure" and norm(d[3]["rv"]["def"]) == b.path]
                         if cl and any(z.kind == "call" and z.a in ("core::slice::first", "core::slice::last") for z in par.prov.op_src(pc.args[0])):
                             guarded = True
+                        # or on the Some of `sum.checked_div(<number of samples in the median window>)`: Some only when there is one
+                        for z in par.prov.op_src(pc.args[0]) if cl else []:
+                            if z.kind == "call" and z.a == "core::num::checked_div":
+                                cd_ = par.call_at(z.b)
+                                dsrc = par.prov.op_src(cd_.args[1]) if cd_ is not None and len(cd_.args) == 2 else set()
+                                if any(q.kind == "call" and q.a.rsplit("::", 1)[-1] == "len" for q in dsrc) and any(q.kind == "call" and q.a == "util::slice_middle" for q in dsrc) and \
+                                        not any(q.kind == "binop" for q in dsrc):
+                                    guarded = True
             else:
                 for ic in b.live_calls():
                     if ic.callee.endswith("::is_empty"):
